@@ -185,6 +185,7 @@ TkInit == [
     sawS |-> {},
     stepDone |-> FALSE, planBefore |-> <<>>, fired |-> <<>>, outcome |-> 0,     \* plan step of this cycle
     phases |-> 0,
+    pseen |-> {},           \* <<method, class, sub-delivery>> of the phase / query callbacks delivered in this call
     desync |-> 0 ]          \* lowest structural level violated in this call (0 = none): the rest of the call is not interpreted
 
 Cont(tk, e) == /\ tk.dpos > 0 /\ tk.dm = e.m /\ tk.ds = e.s /\ tk.dpos < Len(Order(e))
@@ -217,7 +218,7 @@ TkCall(tk, e) ==
                            !.act0 = tk.obs.act, !.stage = "pre", !.dseq = <<>>, !.life = <<>>, !.dpos = 0, !.lastacts = <<>>,
                            !.inround = FALSE, !.rpend = NoT, !.rcancel = FALSE, !.rfirst = FALSE, !.rentry = FALSE,
                            !.surv = NoT, !.passed = {}, !.rounds = 0,
-                           !.sawF = {}, !.sawS = {}, !.stepDone = FALSE, !.fired = <<>>, !.outcome = 0, !.phases = 0,
+                           !.sawF = {}, !.sawS = {}, !.stepDone = FALSE, !.fired = <<>>, !.outcome = 0, !.phases = 0, !.pseen = {},
                            !.planBefore = <<>>, !.desync = 0]
     IN  CASE e.op = "ctor"   -> [TkInit EXCEPT !.alive = TRUE, !.incall = TRUE, !.op = "ctor", !.logger = HasLog /\ e.p # 0]
           [] e.op \in {"to", "ito"}     -> [base EXCEPT !.lastreq = <<NONE, e.a, 0>>]
@@ -231,8 +232,9 @@ TkCall(tk, e) ==
 
 TkCb(tk, e) ==
     LET cont == Cont(tk, e)
-        t1   == IF cont THEN [tk EXCEPT !.dpos = @ + 1, !.dseen = @ \cup {e.j}]
-                ELSE [tk EXCEPT !.dm = e.m, !.ds = e.s, !.dpos = 1, !.dseen = {e.j}, !.dseq = Append(@, <<e.m, e.s>>)]
+        t0   == IF IsPhase(e.m) \/ e.m = M_QUERY THEN [tk EXCEPT !.pseen = @ \cup {<<e.m, e.s, e.j>>}] ELSE tk
+        t1   == IF cont THEN [t0 EXCEPT !.dpos = @ + 1, !.dseen = @ \cup {e.j}]
+                ELSE [t0 EXCEPT !.dm = e.m, !.ds = e.s, !.dpos = 1, !.dseen = {e.j}, !.dseq = Append(@, <<e.m, e.s>>)]
         t2   == CASE IsPhase(e.m) /\ ~cont -> [t1 EXCEPT !.stage = "phase", !.phases = @ + 1]
                   [] IsPhase(e.m)          -> t1
                   [] IsPlanCb(e.m)         -> [t1 EXCEPT !.stage = "plancb"]
@@ -386,6 +388,9 @@ CheckCb(tk, e, tk2) ==
              => e.req[1] = tk.lastreq[1] /\ e.req[2] = tk.lastreq[2],
            "C02", "a request made earlier is no longer waiting although no processing point was reached since (or a request appeared from nowhere)")
     \cup V(e.ev # 0, "C05", "the callback did not receive the caller's own event object")
+    \* (valid whatever the structure of the call: no class is asked twice for the same phase of one cycle)
+    \cup V0((IsPhase(e.m) \/ e.m = M_QUERY) => <<e.m, e.s, e.j>> \notin tk.pseen,
+            "C05", "the same callback of one class was invoked twice within one update() / react() / query()")
     \* ---- payload integrity
     \cup V0(e.req[3] # 999 /\ e.cur[3] # 999 /\ e.pend[3] # 999 /\ \A q \in 1 .. Len(e.plan) : e.plan[q][3] # 999,
            "C07", "a payload shown to a callback does not carry the bytes of any payload that was supplied")
